@@ -381,14 +381,16 @@ def run(run):
             for pre in (PREFIXES if not quick else PREFIXES[:3]):
                 shards.append((pre, l, n, CLOSERS))
         opens = [l for l in letters if l.startswith("<") and "/" not in l[:2]]
-        pair_opens = opens if not quick else [l for l in opens if l in (
+        # (all ordered pairs of ALL start tags at depth 2500 would be 137 k parses of very deep documents - hours; the
+        # pairs are drawn from the 30 elements with their own handling of deep stacks in both tiers)
+        pair_opens = [l for l in opens if l in (
             "<a>", "<b>", "<p>", "<div>", "<table>", "<td>", "<tr>", "<li>", "<dd>", "<rt>", "<ruby>", "<select>", "<option>", "<svg>", "<math>",
             "<mi>", "<button>", "<nobr>", "<form>", "<h1>", "<optgroup>", "<font>", "<applet>", "<caption>", "<tbody>", "<colgroup>",
             "<frameset>", "<desc>", "<rp>", "<foreignObject>")]
         for l1 in pair_opens:
             for l2 in pair_opens:
                 if l1 != l2:
-                    shards.append(("", l1 + l2, n // 2 + 1, ["", "</p>", "x"] if quick else CLOSERS))
+                    shards.append(("", l1 + l2, n // 2 + 1, ["", "</p>", "x"]))
         for r in engine.pmap(_pump_shard, shards, chunksize=1):
             run.add("pump_inputs", r["evals"])
             for cls, (case, j) in r["viol"].items():
